@@ -184,18 +184,45 @@ def wrCommon (w : World F) (e : String) : M (Option (World F)) := do
     let w' ← liftP (w.disconnect 0); emit "-"; return some w'
   else return none
 
+/-- the scripted getters the wrapper's terminal (terminal 0) may follow: (following state?, following command?, outputs) -/
+structure WrFol where
+  fs : Bool := false
+  fc : Bool := false
+  outS : Output (Datum (State F)) := .ok none
+  outC : Output (Datum (Command F)) := .ok none
+
+def WrFol.followed (f : WrFol) : Followed F := ⟨if f.fc then some f.outC else none, if f.fs then some f.outS else none⟩
+
+/-- `tfs tfc tnfs tnfc tgs:<X> tgc:<X>`; `none` if the event is not one of them -/
+def wrFolEvent (f : WrFol) (e : String) : M (Option WrFol) := do
+  if e == "tfs" then emit "-"; return some { f with fs := true }
+  else if e == "tfc" then emit "-"; return some { f with fc := true }
+  else if e == "tnfs" then emit "-"; return some { f with fs := false }
+  else if e == "tnfc" then emit "-"; return some { f with fc := false }
+  else if e.startsWith "tgs:" then
+    let o ← need (pOutDatum pState (e.drop 4).toString); emit "-"; return some { f with outS := o }
+  else if e.startsWith "tgc:" then
+    let o ← need (pOutDatum pCmd (e.drop 4).toString); emit "-"; return some { f with outC := o }
+  else return none
+
 def runWrAct (evs : List String) : M Unit := do
   let mut w ← wrWorld
   let mut acc : UpdRet := .ok ()
   let mut iu : UpdRet := .ok ()
   let mut nupd := 0
+  let mut fol : WrFol := {}
   for e in evs do
+    match ← wrFolEvent fol e with
+    | some f => fol := f; continue
+    | none => pure ()
     if e.startsWith "acc:" then acc ← need (pUpd (e.drop 4).toString); emit "-"
     else if e.startsWith "iu:" then iu ← need (pUpd (e.drop 3).toString); emit "-"
     else if e == "upd" then
-      let r := ActuatorWrapper.update w 0 acc iu
-      if r.2.1 then nupd := nupd + 1
-      emit s!"{sUpd r.2.2};{match r.1 with | some td => sTd td | none => "-"};{nupd};{sTdOut (w.getTerminalData 0)}"
+      let seen := sTdOut (w.getTerminalData 0)
+      let r := ActuatorWrapper.updateF w 0 fol.followed acc iu
+      w := r.1
+      if r.2.2.1 then nupd := nupd + 1
+      emit s!"{sUpd r.2.2.2};{match r.2.1 with | some td => sTd td | none => "-"};{nupd};{seen}"
     else
       match ← wrCommon w e with
       | some w' => w := w'
@@ -206,7 +233,11 @@ def runWrEnc (evs : List String) : M Unit := do
   let mut g : Output (State F) := .ok none
   let mut iu : UpdRet := .ok ()
   let mut n := 0
+  let mut fol : WrFol := {}
   for e in evs do
+    match ← wrFolEvent fol e with
+    | some f => fol := f; continue
+    | none => pure ()
     if e.startsWith "gs:" then g ← need (pOut pState (e.drop 3).toString); emit "-"
     else if e.startsWith "iu:" then iu ← need (pUpd (e.drop 3).toString); emit "-"
     else if e.startsWith "xs:" || e.startsWith "xc:" then
@@ -214,7 +245,7 @@ def runWrEnc (evs : List String) : M Unit := do
       | some w' => w := w'
       | none => throw .bad
     else if e == "upd" then
-      let r := EncoderWrapper.update w 0 iu g
+      let r := EncoderWrapper.updateF w 0 fol.followed iu g
       w := r.1; n := n + 1
       emit s!"{sUpd r.2};{sOwn w 0};{sOptOut sState (w.getState 1)};{n}"
     else throw .bad
